@@ -388,6 +388,10 @@ def concat_any(ctx, a, b):
                 return NumStr(b.bv, b.signed, a.s + b.pre, b.suf)
             return FloatStr(b.fp, a.s + b.pre, b.suf)
         raise Unmodelled('concat of two symbolic numerals')
+    if hasattr(a, 'concat_hook'):
+        return a.concat_hook(ctx, b, False)
+    if hasattr(b, 'concat_hook'):
+        return b.concat_hook(ctx, a, True)
     if isinstance(a, SpecialStr) or isinstance(b, SpecialStr):
         return OpaqueStr('%r ++ %r' % (a, b))
     return str_concat(ctx, a, b)
